@@ -15,17 +15,17 @@ Definition ivs_ok (s : senc) : bool :=
 Definition subs_ok (s : senc) : bool := if sn_use_subs s then lenN (sn_subs s) =? sn_count s else is_nil (sn_subs s).
 
 Definition senc_ok (s : senc) : bool :=
-  match sn_raw s with Some _ => false | None => true end && (sn_read s =? 0) && flag_ok s && ivs_ok s && subs_ok s.
+  negb (sn_np s) && (sn_read s =? 0) && flag_ok s && ivs_ok s && subs_ok s.
 
 (* ------------------------------------------------------------------ the flag *)
 Lemma senc_setflag_idem s : senc_setflag (senc_setflag s) = senc_setflag s.
 Proof.
   unfold senc_setflag. destruct (existsb _ (sn_subs s)) eqn:E; [|rewrite E; reflexivity].
-  cbn [sn_with_flags sn_subs sn_flags]. rewrite E. unfold sn_with_flags. cbn [sn_version sn_flags sn_count sn_ivsize sn_ivs sn_subs sn_raw sn_read].
+  cbn [sn_with_flags sn_subs sn_flags]. rewrite E. unfold sn_with_flags. cbn [sn_version sn_flags sn_count sn_ivsize sn_ivs sn_subs sn_raw sn_np sn_read].
   f_equal. apply N.bits_inj. intros n. rewrite !N.setbit_eqb. destruct (B_SUBS =? n); reflexivity.
 Qed.
 
-Lemma senc_eta s : mkSenc (sn_version s) (sn_flags s) (sn_count s) (sn_ivsize s) (sn_ivs s) (sn_subs s) (sn_raw s) (sn_read s) = s.
+Lemma senc_eta s : mkSenc (sn_version s) (sn_flags s) (sn_count s) (sn_ivsize s) (sn_ivs s) (sn_subs s) (sn_raw s) (sn_np s) (sn_read s) = s.
 Proof. destruct s; reflexivity. Qed.
 
 Lemma setbit_same f k : N.testbit f k = true -> N.setbit f k = f.
@@ -73,18 +73,18 @@ Proof. intros <-. unfold lenN. rewrite Nat2N.id. apply firstn_all. Qed.
 
 (* ------------------------------------------------------------------ a senc_ok box writes Size() bytes *)
 Lemma senc_ok_parts s : senc_ok s = true ->
-  sn_raw s = None /\ sn_read s = 0 /\ flag_ok s = true /\ ivs_ok s = true /\ subs_ok s = true.
+  sn_np s = false /\ sn_read s = 0 /\ flag_ok s = true /\ ivs_ok s = true /\ subs_ok s = true.
 Proof.
   unfold senc_ok. intros H. apply andb_true_iff in H. destruct H as [H P5]. apply andb_true_iff in H. destruct H as [H P4].
   apply andb_true_iff in H. destruct H as [H P3]. apply andb_true_iff in H. destruct H as [P1 P2].
-  destruct (sn_raw s); [discriminate|]. apply N.eqb_eq in P2. repeat split; assumption.
+  apply negb_true_iff in P1. apply N.eqb_eq in P2. repeat split; assumption.
 Qed.
 
 Lemma senc_ok_body s : senc_ok s = true ->
   exists n body, senc_size s = Ok n /\ senc_body s = Ok body /\ lenN body + 16 = n.
 Proof.
   intros H. destruct (senc_ok_parts s H) as (Hr & Hd & Hf & Hi & Hs).
-  unfold senc_size, senc_calc, senc_body, senc_index_bad. rewrite Hr, Hd. cbn [N.ltb N.compare].
+  unfold senc_size, senc_calc, senc_body, senc_body_gen, senc_index_bad. rewrite Hr, Hd. cbn [N.ltb N.compare andb]. rewrite andb_false_r.
   destruct ((sn_ivsize s =? 0) && negb (sn_use_subs s)) eqn:E0.
   { exists 16, []. repeat split. }
   unfold ivs_ok in Hi. unfold subs_ok in Hs.
@@ -131,7 +131,7 @@ Proof.
   intros H. destruct (senc_ok_parts s H) as (Hr & Hd & Hf & Hi & Hs).
   destruct (senc_ok_body s H) as (n & body & Hn & Hb & Hl). exists n. split; [exact Hn|].
   pose proof (flag_ok_fix s Hf) as Hfix. split.
-  - unfold senc_encode_w, senc_encode_sw. rewrite Hfix. unfold senc_all. rewrite Hn, Hb. cbn [rbind].
+  - unfold senc_encode_w, senc_encode_sw. rewrite Hfix. unfold senc_all, senc_all_gen. fold senc_body. rewrite Hn, Hb. cbn [rbind].
     unfold enc_hdr. destruct (TWO32 <=? n) eqn:E; cbn [rbind snd]; [left; repeat split|].
     right. apply N.leb_gt in E. cbn [fst snd].
     set (b := (be32 n ++ TY_SENC) ++ be32 (u32 (sn_version s * 16777216 + sn_flags s)) ++ be32 (sn_count s) ++ body).
@@ -165,7 +165,7 @@ Definition ivs_built (s : senc) : bool :=
   else (0 <? sn_ivsize s) && (lenN (sn_ivs s) =? sn_count s) && forallb (fun iv => lenN iv =? sn_ivsize s) (sn_ivs s).
 
 Definition built_ok (s : senc) : bool :=
-  match sn_raw s with Some _ => false | None => true end && (sn_read s =? 0) && ivs_built s && subs_ok s.
+  negb (sn_np s) && (sn_read s =? 0) && ivs_built s && subs_ok s.
 
 Lemma built_ok_senc_ok s : built_ok s = true -> senc_ok s = true.
 Proof.
@@ -191,9 +191,9 @@ Lemma senc_add_built s iv subs s' :
   senc_add s iv subs = Ok s' -> built_ok s = true -> lenN iv < 256 -> sn_count s + 1 < 4294967296 ->
   built_ok s' = true /\ sn_count s' = sn_count s + 1.
 Proof.
-  destruct s as [ver fl cnt ivsz ivl sbs raw rd]. unfold built_ok, ivs_built, subs_ok, sn_use_subs, senc_add, senc_add_gen.
-  cbn [sn_version sn_flags sn_count sn_ivsize sn_ivs sn_subs sn_raw sn_read andb].
-  intros Ha H Hiv Hc. destruct raw; [discriminate|]. cbn [andb] in H.
+  destruct s as [ver fl cnt ivsz ivl sbs raw np rd]. unfold built_ok, ivs_built, subs_ok, sn_use_subs, senc_add, senc_add_gen.
+  cbn [sn_version sn_flags sn_count sn_ivsize sn_ivs sn_subs sn_raw sn_np sn_read andb].
+  intros Ha H Hiv Hc. destruct np; [discriminate|]. cbn [negb andb] in H.
   apply andb_true_iff in H. destruct H as [H Hs]. apply andb_true_iff in H. destruct H as [Hrd Hi]. apply N.eqb_eq in Hrd. subst rd.
   assert (Hu : u32 (cnt + 1) = cnt + 1) by (unfold u32; apply N.mod_small; exact Hc).
   (* the sub-sample part, for any s1 that differs from s in the IV fields only *)
@@ -202,17 +202,17 @@ Proof.
     forall s'',
     Ok (let s2 := if negb (is_nil subs) || N.testbit fl B_SUBS
                   then mkSenc ver (if negb (is_nil subs) then N.setbit fl B_SUBS else fl) cnt ivsz1 ivl1
-                              ((sbs ++ repeat [] (N.to_nat cnt - length sbs)) ++ [subs]) None 0
-                  else mkSenc ver fl cnt ivsz1 ivl1 sbs None 0 in
-        mkSenc (sn_version s2) (sn_flags s2) (u32 (sn_count s2 + 1)) (sn_ivsize s2) (sn_ivs s2) (sn_subs s2) (sn_raw s2) (sn_read s2)) = Ok s'' ->
-    (match sn_raw s'' with Some _ => false | None => true end && (sn_read s'' =? 0) &&
+                              ((sbs ++ repeat [] (N.to_nat cnt - length sbs)) ++ [subs]) raw false 0
+                  else mkSenc ver fl cnt ivsz1 ivl1 sbs raw false 0 in
+        mkSenc (sn_version s2) (sn_flags s2) (u32 (sn_count s2 + 1)) (sn_ivsize s2) (sn_ivs s2) (sn_subs s2) (sn_raw s2) (sn_np s2) (sn_read s2)) = Ok s'' ->
+    (negb (sn_np s'') && (sn_read s'' =? 0) &&
      (if is_nil (sn_ivs s'') then sn_ivsize s'' =? 0
       else (0 <? sn_ivsize s'') && (lenN (sn_ivs s'') =? sn_count s'') && forallb (fun x => lenN x =? sn_ivsize s'') (sn_ivs s'')) &&
      (if N.testbit (sn_flags s'') B_SUBS then lenN (sn_subs s'') =? sn_count s'' else is_nil (sn_subs s''))) = true /\
     sn_count s'' = cnt + 1).
   { intros ivsz1 ivl1 Hi1 s'' E. apply ok_inj in E. subst s''.
     destruct (negb (is_nil subs) || N.testbit fl B_SUBS) eqn:Eb;
-      cbn [sn_version sn_flags sn_count sn_ivsize sn_ivs sn_subs sn_raw sn_read andb N.eqb]; rewrite Hu, Hi1; cbn [andb]; split; try reflexivity.
+      cbn [sn_version sn_flags sn_count sn_ivsize sn_ivs sn_subs sn_raw sn_np sn_read negb andb N.eqb]; rewrite Hu, Hi1; cbn [andb]; split; try reflexivity.
     - destruct (N.testbit fl B_SUBS) eqn:Ef.
       + (* flag already set: one entry per sample so far, nothing to pad *)
         apply N.eqb_eq in Hs.
@@ -284,5 +284,5 @@ Proof. exists [([1; 2; 3; 4; 5; 6; 7; 8], []); ([], [])], 32. split; vm_compute;
 Lemma senc_flag_refuted : exists s n n',
   senc_size s = Ok n /\ senc_size (fst (senc_encode_w s)) = Ok n' /\ n <> n'.
 Proof.
-  exists (mkSenc 0 0 1 0 [] [[(1, 2)]] None 0), 16, 24. split; [vm_compute; reflexivity|]. split; [vm_compute; reflexivity|discriminate].
+  exists (mkSenc 0 0 1 0 [] [[(1, 2)]] [] false 0), 16, 24. split; [vm_compute; reflexivity|]. split; [vm_compute; reflexivity|discriminate].
 Qed.
